@@ -68,6 +68,10 @@ CHECKS = {
    text="Lifecycle schedules of the real UDP relays (NAT and session relay, recvmmsg and generic paths) on a virtual clock: idle eviction at natTimeout-/+eps with restart, Stop when idle / established / with bursts in flight / right after timeouts / while initialisation is held in name resolution / with a goroutine held at the re-arm or state-swap hook, failing initialisation (router reject, upstream refused); after Run returns the process is audited: goroutines and sockets back to baseline, listener port reusable, virtual time consumed by Stop < natTimeout/2.",
    note="Multi-user SS2022 servers excluded (signal.Notify makes the fake clock unadvanceable); kernel fault injection (EMFILE, ICMP) not in this tier; leak audit by process-wide goroutine/socket counts.",
    tech="runtime monitoring: lifecycle-phase enumeration with hook-directed schedules on the runtime's fake clock + leak/virtual-time audit"),
+ "C13": dict(cat="exploration",
+   text="The real service manager over real loopback TCP for server x client protocol pairs incl. chained proxies and a dead upstream: initial payload sizes around 1440 handed to the dial, first data at virtual t in {0, 249 ms, 251 ms, never} around the 250 ms wait, further writes, target behaviours (echo, banner after EOF, speak first, half-close first, sink, answer then RST), wait disabled or not, IP/domain targets, dial failures (refused, router reject, resolver failure); oracle: exactly one onward connection to the requested target, both byte streams exact, half-closes mirrored while the other direction keeps flowing, failure reported by the protocol's reply unless success had to be signalled first (then a clean close without stray bytes), API statistics equal to the bytes seen at the sockets.",
+   note="Multi-user SS2022 only in the race part (real clock, 30 ms wait); exact SOCKS5 failure codes judged for a direct upstream only.",
+   tech="runtime monitoring: stream-equality / half-close / reply oracle on real TCP sockets (faketime + race detector) with conservation check against the statistics API"),
 }
 
 PENDING_DEFAULT = "check under construction in this session (design in DESIGN.md §4); not claimed until its monitor runs clean on the unchanged tree"
